@@ -9,6 +9,7 @@ back to leaves:
     const:<rendering>    a constant
 It returns the leaves, the set of external callees passed through (`via`) and the (adt, field) pairs read on the way.
 """
+import json
 from collections import deque
 
 from .mir import CallSite, op_const, op_local, op_place, strip_generics
@@ -151,6 +152,22 @@ def origins(body, start, opaque=None, follow_workspace=False, max_nodes=20000, s
             if isinstance(e, dict) and "idx" in e:
                 add_local(e["idx"])
         l = p["l"]
+        # `(*r).field` where r is a reference local defined once: look through the reference so that the field stays visible
+        if len(p["p"]) >= 2 and p["p"][0] == "*" and any(isinstance(e, dict) and "f" in e for e in p["p"][1:]) and not (1 <= l <= body.arg_count):
+            rd = body.defs.get(l, [])
+            if len(rd) == 1 and rd[0][0] == "stmt" and rd[0][3]["s"] == "assign" and not rd[0][3]["lhs"]["p"]:
+                rv_ = rd[0][3]["rv"]
+                tgt_ = None
+                if rv_["k"] in ("ref", "rawptr"):
+                    tgt_ = {"l": rv_["place"]["l"], "p": list(rv_["place"]["p"]) + list(p["p"][1:])}
+                elif rv_["k"] == "use" and op_place(rv_["op"]) is not None:
+                    q = op_place(rv_["op"])
+                    tgt_ = {"l": q["l"], "p": list(q["p"]) + list(p["p"])}
+                if tgt_ is not None and (tgt_["l"], json.dumps(tgt_["p"], sort_keys=True)) not in seen:
+                    seen.add((tgt_["l"], json.dumps(tgt_["p"], sort_keys=True)))
+                    sl.locals.add(l)
+                    add_place(tgt_)
+                    return
         # a field of a CLONE of a struct value whose fields are known individually (`..base.clone()` in a struct literal): the
         # clone is field-wise, so `clone(&base).f` is base.f
         if p["p"] and isinstance(p["p"][0], dict) and "f" in p["p"][0] and not (1 <= l <= body.arg_count):
@@ -164,7 +181,9 @@ def origins(body, start, opaque=None, follow_workspace=False, max_nodes=20000, s
         # field-sensitive step for tuple / struct temporaries: `_t.1` follows only operand 1 of `_t = (a, b)`
         if p["p"] and isinstance(p["p"][0], dict) and "f" in p["p"][0] and ("upvar_of" not in p["p"][0] or l > body.arg_count) \
                 and not (1 <= l <= body.arg_count) and _only_agg_defs(body, l):
-            key = (l, p["p"][0]["f"])
+            rest = [e for e in p["p"][1:] if not (isinstance(e, dict) and "downcast" in e)]
+            has_more = any(isinstance(e, dict) and "f" in e for e in rest)
+            key = (l, p["p"][0]["f"]) if not has_more else (l, p["p"][0]["f"], json.dumps(rest, sort_keys=True))
             if key not in seen:
                 seen.add(key)
                 dq.append(key)
@@ -214,8 +233,50 @@ def origins(body, start, opaque=None, follow_workspace=False, max_nodes=20000, s
         l = dq.popleft()
         n += 1
         if isinstance(l, tuple):
-            base, fld = l
+            base, fld = l[0], l[1]
+            rest = json.loads(l[2]) if len(l) > 2 else None
             sl.locals.add(base)
+            if rest is not None:
+                # `(*(state.k)).field..`: resolve state.k to what was stored there, then apply the remaining projection to it
+                def apply_rest(src_place, is_ref_of=True):
+                    # the slot holds `&P` (is_ref_of): (*slot).rest = P.rest-without-the-leading-deref; or a copy of a place Q that
+                    # itself holds the reference: (*slot).rest = (*Q).rest
+                    r_ = list(rest)
+                    if is_ref_of and r_ and r_[0] == "*":
+                        r_ = r_[1:]
+                    add_place({"l": src_place["l"], "p": list(src_place["p"]) + r_})
+                for kind, bb, j, x in body.defs.get(base, []):
+                    if kind != "stmt" or x["s"] != "assign":
+                        continue
+                    if x["lhs"]["p"]:
+                        e = x["lhs"]["p"][0]
+                        if not (isinstance(e, dict) and e.get("f") == fld):
+                            continue
+                        rv = x["rv"]
+                    else:
+                        rv0 = x["rv"]
+                        if rv0["k"] == "agg" and fld < len(rv0["ops"]):
+                            rv = {"k": "use", "op": rv0["ops"][fld]}
+                        else:
+                            add_local(base)
+                            continue
+                    if rv["k"] in ("use", "cast"):
+                        pl = op_place(rv["op"])
+                        if pl is None:
+                            add_op(rv["op"])
+                            continue
+                        # a reference temporary `_r = &M` moved into the slot
+                        if not pl["p"]:
+                            rd = body.defs.get(pl["l"], [])
+                            if len(rd) == 1 and rd[0][0] == "stmt" and rd[0][3]["s"] == "assign" and rd[0][3]["rv"]["k"] in ("ref", "rawptr"):
+                                apply_rest(rd[0][3]["rv"]["place"], True)
+                                continue
+                        apply_rest(pl, False)
+                    elif rv["k"] in ("ref", "rawptr"):
+                        apply_rest(rv["place"], True)
+                    else:
+                        add_local(base)
+                continue
             for kind, bb, j, x in body.defs.get(base, []):
                 if kind != "stmt" or x["s"] != "assign":
                     continue
